@@ -3023,6 +3023,15 @@ impl QueryJob {
                                 let mut deleted = 0;
                                 let mut inserted = 0;
 
+                                // Instantiate the delete and insert targets for every matched
+                                // binding first, then apply all deletes before all inserts.
+                                // Applying them binding by binding made the outcome depend on the
+                                // (arbitrary) order of the query results whenever one binding
+                                // inserts a tuple that another binding deletes: an update is the
+                                // set (R - deletes) + inserts of its matched bindings.
+                                let mut delete_ops: Vec<(String, Tuple)> = Vec::new();
+                                let mut insert_ops: Vec<(String, Tuple)> = Vec::new();
+
                                 for result_tuple in results {
                                     // Build bindings from query result: var_name → Value
                                     let bindings: std::collections::HashMap<String, Value> =
@@ -3036,47 +3045,40 @@ impl QueryJob {
                                             })
                                             .collect();
 
-                                    for target in &op.deletes {
-                                        let tuple_vals: Option<Vec<Value>> = target
-                                            .args
-                                            .iter()
+                                    let instantiate = |args: &[Term]| -> Option<Tuple> {
+                                        args.iter()
                                             .map(|arg| match arg {
                                                 Term::Variable(v) => bindings.get(v).cloned(),
                                                 other => term_to_value(other).ok(),
                                             })
-                                            .collect();
-                                        if let Some(vals) = tuple_vals {
-                                            let count = storage
-                                                .delete_tuples_from(
-                                                    &kg_name,
-                                                    &target.relation,
-                                                    vec![Tuple::new(vals)],
-                                                )
-                                                .map_err(|e| e.to_string())?;
-                                            deleted += count;
-                                        }
-                                    }
+                                            .collect::<Option<Vec<Value>>>()
+                                            .map(Tuple::new)
+                                    };
 
-                                    for target in &op.inserts {
-                                        let tuple_vals: Option<Vec<Value>> = target
-                                            .args
-                                            .iter()
-                                            .map(|arg| match arg {
-                                                Term::Variable(v) => bindings.get(v).cloned(),
-                                                other => term_to_value(other).ok(),
-                                            })
-                                            .collect();
-                                        if let Some(vals) = tuple_vals {
-                                            let (new_count, _) = storage
-                                                .insert_tuples_into(
-                                                    &kg_name,
-                                                    &target.relation,
-                                                    vec![Tuple::new(vals)],
-                                                )
-                                                .map_err(|e| e.to_string())?;
-                                            inserted += new_count;
+                                    for target in &op.deletes {
+                                        if let Some(tuple) = instantiate(&target.args) {
+                                            delete_ops.push((target.relation.clone(), tuple));
                                         }
                                     }
+                                    for target in &op.inserts {
+                                        if let Some(tuple) = instantiate(&target.args) {
+                                            insert_ops.push((target.relation.clone(), tuple));
+                                        }
+                                    }
+                                }
+
+                                for (relation, tuple) in delete_ops {
+                                    let count = storage
+                                        .delete_tuples_from(&kg_name, &relation, vec![tuple])
+                                        .map_err(|e| e.to_string())?;
+                                    deleted += count;
+                                }
+
+                                for (relation, tuple) in insert_ops {
+                                    let (new_count, _) = storage
+                                        .insert_tuples_into(&kg_name, &relation, vec![tuple])
+                                        .map_err(|e| e.to_string())?;
+                                    inserted += new_count;
                                 }
 
                                 // Track insert count for metrics
